@@ -22,8 +22,10 @@ ROOT = Path(__file__).resolve().parent.parent
 SPEC = ROOT / "spec"
 WORK = ROOT / ".work"
 CACHE = ROOT / ".cache"
-EVID = ROOT / "evidence"
-REPLAY = ROOT / "replay"
+# (the two directories can be redirected for experiments on scratch copies of the repository, see harness/seedrun2.sh;
+#  the registered commands never set these variables)
+EVID = Path(os.environ.get("VERIF_EVIDENCE_DIR", ROOT / "evidence"))
+REPLAY = Path(os.environ.get("VERIF_REPLAY_DIR", ROOT / "replay"))
 REPO = Path(os.environ.get("Y0_REPO", "/repo"))
 PY = "/venv/bin/python"
 JAR = "/opt/veriftools/tla/tla2tools.jar:/opt/veriftools/tla/CommunityModules-deps.jar"
